@@ -429,7 +429,7 @@ func checkLegacyEmptiness(p *Program, r *Report, rule string, fns []*ssa.Functio
 		}
 	}
 	if n == 0 {
-		r.Note(rule+": the legacy loader has no branch on the emptiness of the children array")
+		r.Note(rule + ": the legacy loader has no branch on the emptiness of the children array")
 	}
 }
 
@@ -772,6 +772,8 @@ func checkC07(p *Program, r *Report) {
 	if vtProblems(vt, r) {
 		return
 	}
+	r.Explanation += " (value-after-error) under Unmarshal no pointer or interface result of a (value, error) call is used on the edge where that error is non-nil."
+	checkValueAfterError(p, r, "C07.value-after-error")
 }
 
 // errorDiscipline checks one read call: cut the err==nil edges of nil tests on
